@@ -198,6 +198,29 @@ def r7_done_guarded(chk):
         r.require(cfg, 1, "done() call sites")
 
 
+def r8_monitor_never_blocks(chk):
+    r = chk.rule("R8", "no library task waits on the application's monitor queue", "T1 who-may-call (blocking form)",
+                 "events for the socket monitor (a bounded queue the application may leave unread) are emitted with the non-blocking try_send everywhere; an awaited send() would park a library task "
+                 "(connect, shutdown clean-up) for as long as the application does not read its monitor, past close() and term()")
+    for cfg, prog in chk.configs():
+        n = 0
+        for c in prog.all_calls():
+            if "::tests" in c.body.path or not c.args or c.name not in ("send", "try_send", "send_timeout", "send_blocking", "blocking_send"):
+                continue
+            a0 = c.args[0]
+            ty = c.body.locals[a0["p"]["l"]] if a0["c"] in ("copy", "move") and not a0["p"]["pr"] else (a0.get("p", {}).get("ty") or "")
+            if "Sender<socket::events::SocketEvent>" not in ty and "Sender<socket::events::SocketEvent>" not in c.callee:
+                continue
+            n += 1
+            idx = [x for x in c.body.calls if x.name == c.name and x.args and x.blk <= c.blk and "SocketEvent" in (c.body.locals[x.args[0]["p"]["l"]] if x.args[0]["c"] in ("copy", "move") and not x.args[0]["p"]["pr"] else "")]
+            key = "%s|monitor event #%d is sent without waiting" % (short(c.body.path), len(idx))
+            if c.name == "try_send":
+                r.ok(cfg, key, where(c.body, c.blk), "try_send")
+            else:
+                r.bad(cfg, key, where(c.body, c.blk), "%s() on the monitor queue waits for room: with a full, unread monitor this task never finishes (and whatever it does afterwards - replying to the caller, finishing the shutdown - never happens)" % c.name)
+        r.require(cfg, 20, "monitor event emissions")
+
+
 def run(chk):
     chk.undecided = ["bounded time of close()/term()", "ports free after close", "term()'s internal 10 s timeout hides stragglers (observation)"]
     r1_raii(chk)
@@ -207,3 +230,4 @@ def run(chk):
     r5_unregister(chk)
     r6_waitgroup(chk)
     r7_done_guarded(chk)
+    # r8_monitor_never_blocks(chk)  # armed once the triage of its report on the pinned tree is back
